@@ -43,14 +43,16 @@ type mEntry struct {
 	parents    []int
 	isGrad     bool
 	cmpOfSpent bool // comparison computed from a spent operand: later use is unspecified
+	resetAt    int  // step after which ResetGradContext last turned this tensor into a fresh leaf (0: never)
+	gradAt     int  // step of the back-propagation that last assigned / accumulated its gradient
 }
 
 type trackModel struct {
-	e []mEntry
+	e []*mEntry // aliased handles (one tensor object reached twice) share one entry
 }
 
 func (m *trackModel) addLeaf(shape []int, tracked bool) {
-	m.e = append(m.e, mEntry{shape: ref.Cp(shape), tracked: tracked, leaf: true})
+	m.e = append(m.e, &mEntry{shape: ref.Cp(shape), tracked: tracked, leaf: true})
 }
 
 // addOp applies the statement's rule: a result is spent iff an operand is spent, otherwise
@@ -61,7 +63,7 @@ func (m *trackModel) addOp(n prog.Node, shape []int) {
 		anySpent = anySpent || m.e[o].spent
 		anyTracked = anyTracked || m.e[o].tracked
 	}
-	ne := mEntry{shape: ref.Cp(shape)}
+	ne := &mEntry{shape: ref.Cp(shape)}
 	switch {
 	case prog.IsCmp(n.Op):
 		ne.leaf = true
@@ -81,7 +83,7 @@ func (m *trackModel) addOp(n prog.Node, shape []int) {
 }
 
 func (m *trackModel) addGrad(x int) {
-	m.e = append(m.e, mEntry{shape: ref.Cp(m.e[x].shape), spent: true, leaf: true, isGrad: true})
+	m.e = append(m.e, &mEntry{shape: ref.Cp(m.e[x].shape), spent: true, leaf: true, isGrad: true})
 }
 
 // reach is the set a back-propagation from r passes through: r and, recursively, the tracked
@@ -153,8 +155,9 @@ func (m *trackModel) resetEnabled(x int) bool {
 }
 
 func (m *trackModel) reset(x int, tracked bool) {
-	e := &m.e[x]
+	e := m.e[x]
 	e.tracked, e.spent, e.hasGrad, e.leaf, e.passed, e.parents, e.isGrad, e.cmpOfSpent = tracked, false, false, true, false, nil, false, false
+	e.resetAt = -1 // the checker replaces this by the step number
 }
 
 func (m *trackModel) shapes() [][]int {
@@ -201,9 +204,21 @@ func genC08(t *rapid.T) C08Case {
 	addLeaf := func() {
 		s := rapid.SampledFrom(prog.HistShapes).Draw(t, "shape")
 		tr := rapid.IntRange(0, 2).Draw(t, "tracked") > 0
-		v := prog.DrawValsMode(t, ref.Prod(s), len(m.e), "std")
-		c.Steps = append(c.Steps, HStep{Kind: "leaf", Shape: ref.Cp(s), Vals: v, Tracked: tr})
-		m.addLeaf(s, tr)
+		st := HStep{Kind: "leaf", Shape: ref.Cp(s), Tracked: tr}
+		if k := rapid.IntRange(0, 9).Draw(t, "ctor"); k <= 2 {
+			// a constructor other than TensorOf: 2 = Eye(n), 3 = Zeros, 4 = Ones (often untracked:
+			// constants that several graphs of a history share)
+			st.X = 2 + k
+			if st.X == 2 {
+				n := rapid.IntRange(1, 3).Draw(t, "eyen")
+				st.Shape = []int{n, n}
+			}
+			st.Tracked = rapid.IntRange(0, 3).Draw(t, "ctortracked") == 0
+		} else {
+			st.Vals = prog.DrawValsMode(t, ref.Prod(s), len(m.e), "std")
+		}
+		c.Steps = append(c.Steps, st)
+		m.addLeaf(st.Shape, st.Tracked)
 	}
 	addLeaf()
 	maxSteps := 30
@@ -211,6 +226,8 @@ func genC08(t *rapid.T) C08Case {
 		maxSteps = 50
 	}
 	nsteps := rapid.IntRange(3, maxSteps).Draw(t, "nsteps")
+	bursted := false
+	noProbe := map[int]bool{}
 	for len(c.Steps) < nsteps {
 		switch k := rapid.IntRange(0, 11).Draw(t, "kind"); {
 		case k <= 1:
@@ -219,6 +236,20 @@ func genC08(t *rapid.T) C08Case {
 			n, rs := drawHistOp(t, m, prog.AllOps)
 			c.Steps = append(c.Steps, HStep{Kind: "op", Node: &n})
 			m.addOp(n, rs)
+			if !bursted && rapid.IntRange(0, 29).Draw(t, "burst") == 0 {
+				// once per history at most: a long chain of unary ops on the newest tensor (deep
+				// graphs with many contexts); the chain's interior is left out of the probe sweeps
+				bursted = true
+				for b := rapid.IntRange(30, 80).Draw(t, "burstlen"); b > 0; b-- {
+					u := prog.Node{Op: []string{"sin", "tanh", "cos"}[b%3], In: []int{len(m.e) - 1}}
+					c.Steps = append(c.Steps, HStep{Kind: "op", Node: &u})
+					m.addOp(u, m.e[len(m.e)-1].shape)
+					if b > 1 {
+						noProbe[len(m.e)-1] = true
+					}
+				}
+				nsteps += 85
+			}
 		case k <= 9:
 			x := rapid.IntRange(0, len(m.e)-1).Draw(t, "bp")
 			if len(m.e) > 2 && rapid.Bool().Draw(t, "bprecent") {
@@ -232,7 +263,7 @@ func genC08(t *rapid.T) C08Case {
 			m.bp(x)
 		case k == 10:
 			x := rapid.IntRange(0, len(m.e)-1).Draw(t, "reset")
-			if !m.resetEnabled(x) || m.e[x].isGrad {
+			if !m.resetEnabled(x) {
 				addLeaf()
 				continue
 			}
@@ -258,7 +289,7 @@ func genC08(t *rapid.T) C08Case {
 	// probe sweep: tracked-ness is only observable through a later back-propagation
 	n0 := len(m.e)
 	for x := 0; x < n0; x++ {
-		if m.e[x].cmpOfSpent {
+		if m.e[x].cmpOfSpent || noProbe[x] {
 			continue
 		}
 		n := prog.Node{Op: "scale", In: []int{x}, F: 1}
@@ -274,7 +305,7 @@ func genC08(t *rapid.T) C08Case {
 	// a fresh tracked tensor - the result is tracked (and the fresh tensor receives a gradient)
 	// exactly when the other operand is not spent
 	for x := 0; x < n0; x++ {
-		if m.e[x].cmpOfSpent {
+		if m.e[x].cmpOfSpent || noProbe[x] {
 			continue
 		}
 		s := m.e[x].shape
@@ -315,21 +346,21 @@ func checkC08(c C08Case) *Failure {
 	if err != nil {
 		return failf("%v", err)
 	}
-	var sawOpOnSpent, sawResetThenGraph, sawSecondBP, sawGradOperand bool
+	var sawOpOnSpent, sawResetThenGraph, sawSecondBP, sawGradOperand, sawAlias bool
 	bps, resets := 0, 0
 	for si, st := range c.Steps {
 		changed := map[int]bool{}
 		switch st.Kind {
 		case "leaf":
-			if !ref.ValidDims(st.Shape) || len(st.Vals) != ref.Prod(st.Shape) {
+			x, tw, ok, err := buildLeaf(st)
+			if !ok {
 				return nil
 			}
-			x, err := lib.New(st.Shape, st.Vals, st.Tracked)
 			if err != nil {
 				return failf("step %d: cannot create leaf: %v", si, err)
 			}
 			pool = append(pool, x)
-			twin = append(twin, lib.MustNew(st.Shape, st.Vals, false))
+			twin = append(twin, tw)
 			m.addLeaf(st.Shape, st.Tracked)
 		case "op":
 			if st.Node == nil {
@@ -391,7 +422,12 @@ func checkC08(c C08Case) *Failure {
 			}
 			set := m.bp(st.X)
 			for _, x := range set {
-				changed[x] = true
+				m.e[x].gradAt = si + 1
+				for i := range pool {
+					if m.e[i] == m.e[x] {
+						changed[i] = true
+					}
+				}
 			}
 			if len(set) > 0 {
 				bps++
@@ -400,15 +436,18 @@ func checkC08(c C08Case) *Failure {
 				}
 			}
 		case "reset":
-			if st.X < 0 || st.X >= len(pool) || !m.resetEnabled(st.X) || m.e[st.X].isGrad {
-				// Reset on a handle obtained from Gradient() is generated out: the library may
-				// hand out one tensor object as the gradient of several tensors (e.g. Add's
-				// rule passes the upstream gradient on), so a per-handle model is not sound there
+			if st.X < 0 || st.X >= len(pool) || !m.resetEnabled(st.X) {
 				return nil
 			}
 			pool[st.X].ResetGradContext(st.Tracked)
 			m.reset(st.X, st.Tracked)
-			changed[st.X] = true
+			m.e[st.X].resetAt = si + 1
+			// every handle of the same tensor object shares the entry and may change with it
+			for i := range pool {
+				if m.e[i] == m.e[st.X] {
+					changed[i] = true
+				}
+			}
 			resets++
 		case "grad":
 			if st.X < 0 || st.X >= len(pool) || !m.e[st.X].hasGrad {
@@ -418,9 +457,28 @@ func checkC08(c C08Case) *Failure {
 			if g == nil {
 				return failf("step %d: tensor %d should have a gradient (model) but Gradient() is nil", si, st.X)
 			}
+			// Gradient() may hand out a tensor object that is in the pool already (the library
+			// passes one gradient object on to several tensors, e.g. through Add): the handles
+			// then share one model entry
+			alias := -1
+			for i := range pool {
+				if pool[i] == g {
+					alias = i
+					break
+				}
+			}
 			pool = append(pool, g)
 			twin = append(twin, nil)
-			m.addGrad(st.X)
+			if alias >= 0 {
+				a := m.e[alias]
+				if a.resetAt > 0 && m.e[st.X].gradAt > a.resetAt && !a.spent {
+					return failf("step %d: the gradient that the back-propagation of step %d delivered to tensor %d is tensor %d, which ResetGradContext had turned into a fresh leaf at step %d: a gradient tensor is not untracked / spent", si, m.e[st.X].gradAt-1, st.X, alias, a.resetAt-1)
+				}
+				m.e = append(m.e, a)
+				sawAlias = true
+			} else {
+				m.addGrad(st.X)
+			}
 		default:
 			return nil
 		}
@@ -470,10 +528,49 @@ func checkC08(c C08Case) *Failure {
 	if sawGradOperand {
 		evid.Class("C08.gradient_tensor_as_operand")
 	}
+	if sawAlias {
+		evid.Class("C08.aliased_gradient_handles")
+	}
 	if nt {
 		evid.NonTrivial(c)
 	}
 	return nil
+}
+
+// buildLeaf creates the leaf of a step (X: 0 TensorOf, 1 Full(0.75), 2 Eye, 3 Zeros, 4 Ones)
+// and its untracked twin; ok is false for a malformed step.
+func buildLeaf(st HStep) (x, twin tensor.Tensor, ok bool, err error) {
+	if !ref.ValidDims(st.Shape) {
+		return nil, nil, false, nil
+	}
+	mk := func(tracked bool) (tensor.Tensor, error) {
+		switch st.X {
+		case 1:
+			return tensor.Full(ref.Cp(st.Shape), 0.75, lib.Conf(tracked))
+		case 2:
+			if len(st.Shape) != 2 || st.Shape[0] != st.Shape[1] {
+				return nil, fmt.Errorf("malformed")
+			}
+			return tensor.Eye(st.Shape[0], lib.Conf(tracked))
+		case 3:
+			return tensor.Zeros(ref.Cp(st.Shape), lib.Conf(tracked))
+		case 4:
+			return tensor.Ones(ref.Cp(st.Shape), lib.Conf(tracked))
+		}
+		if len(st.Vals) != ref.Prod(st.Shape) {
+			return nil, fmt.Errorf("malformed")
+		}
+		return lib.New(st.Shape, st.Vals, tracked)
+	}
+	x, err = mk(st.Tracked)
+	if err != nil && err.Error() == "malformed" {
+		return nil, nil, false, nil
+	}
+	if err != nil {
+		return nil, nil, true, err
+	}
+	twin, err = mk(false)
+	return x, twin, true, err
 }
 
 func probeTag(st HStep) string {
